@@ -3,6 +3,8 @@ import NumbersModel.Drv.Tokenizer
 import NumbersModel.Drv.Items
 import NumbersModel.Drv.Addressing
 import NumbersModel.Drv.Csv
+import NumbersModel.Drv.CellRecord
+import NumbersModel.Drv.Storage
 
 open NumbersModel.Drv
 
@@ -14,6 +16,9 @@ def dispatch (line : String) : String :=
     | "items" :: rest => handleItems rest
     | "addr" :: rest => handleAddr rest
     | "csv" :: rest => handleCsv rest
+    | "cell" :: rest => handleCell rest
+    | "d128" :: rest => handleD128 rest
+    | "row" :: rest => handleRow rest
     | _ => none
   match r with
   | some s => s
